@@ -403,6 +403,8 @@ async fn write_all(ep: &'static str, mut send: SendStream, key: u64, size: u64, 
         let max = cfg.chunk.max(1);
         let n = (1 + rng.below(max)).min(size - off) as usize;
         let data = cfg::payload(key, off, n);
+        // the offer is logged BEFORE the call: parts of it may reach the wire before the call resolves
+        log(ep, format!("wbegin {sid} {off} {n}"));
         // number of bytes the API reported as accepted
         let accepted: core::result::Result<usize, String> = match api {
             1 => {
